@@ -67,6 +67,10 @@ const inf = -1
 // nativeDepths: the depths of the Native forms (d does not consume script stack).
 var nativeDepths = []int{0, 1, 5, inf}
 
+// nativeLimits: the limits of the Native forms (the limit plays no role in
+// how deep the Go recursion gets; two values suffice).
+var nativeLimits = []int{8, 1000}
+
 // recDepths lists the depths enumerated for a limit: 0..L+2 and unbounded. In
 // the quick tier the large limits use the window {0,1,2, L-3..L+2, unbounded}.
 func recDepths(L int, thorough bool) []int {
@@ -103,7 +107,11 @@ func runRecursion(r *rc) {
 	var base *otto.Otto
 
 	for _, form := range recForms {
-		for _, L := range recLimits {
+		limits := recLimits
+		if form.Native {
+			limits = nativeLimits
+		}
+		for _, L := range limits {
 			// Monotonicity per (form, L): every worker owns a subsequence of the
 			// depths; once it saw the RangeError at d0, every deeper d it owns
 			// must end in the RangeError too.
